@@ -33,10 +33,10 @@ def releases (s : Sym) : Bool := s.hasDestructor && s.dtorCalls == [expectedDtor
 
 /-- symbols that own heap memory and lack a destructor in the pinned tree (commented out
 or never written); re-derived by the translator on every run -/
-def knownMissing : List String := ["param_decl", "param_seq", "except"]
+def knownMissing : List String := ["param_decl", "except"]
 
 /-- those of them bison can actually discard (see `Sym.discardable`) -/
-def knownLeaking : List String := ["param_seq"]
+def knownLeaking : List String := []
 
 /-- full-strength statement: every symbol whose value owns heap memory (and is not handed to
 the caller) has a destructor that releases it -/
@@ -65,6 +65,17 @@ theorem discardable_symbols_released_partial :
   intro s hs ho hh hd hn
   have := List.all_eq_true.mp h s hs
   simpa [ho, hh, hd, hn] using this
+
+/-- **every grammar symbol bison can discard during error recovery releases its heap value** — no exception
+(full strength since the `fix:` commit adb6ca8 added the missing `%destructor` for `param_seq`; the table is
+regenerated from front/parser.y on every run) -/
+theorem discardable_symbols_released :
+    ∀ s ∈ syms, s.ownsHeap = true → s.handedOut = false → s.discardable = true → releases s = true := by
+  have h : syms.all (fun s => !s.ownsHeap || s.handedOut || !s.discardable || releases s) = true := by
+    decide +kernel
+  intro s hs ho hh hd
+  have := List.all_eq_true.mp h s hs
+  simpa [ho, hh, hd] using this
 
 /-- the value handed to the caller through the parse parameter is not also released by
 bison when it pops the start symbol on acceptance (that would be a double free) -/
